@@ -217,9 +217,14 @@ def check(prog: Program, tier: str) -> Result:
             if ik == "synth" and kind == "Name" and isinstance(e, ast.Name) and _all_constant_defs(fn, e.id) and not _binding_position(fn, c):
                 res.ok("R19.1", fn.loc(c), fn.fq, text, "reference to one of a fixed set of well-known names (load context), not a binder", trivial=True)
                 continue
-            if ik in ("copy", "underscore"):
-                res.ok("R19.1", fn.loc(c), fn.fq, text, "identifier copied from the tree" if ik == "copy" else "the conventional throw-away name `_`", trivial=True)
+            if ik == "copy":
+                res.ok("R19.1", fn.loc(c), fn.fq, text, "identifier copied from the tree", trivial=True)
                 continue
+            if ik == "underscore" and not _binding_position(fn, c):
+                res.ok("R19.1", fn.loc(c), fn.fq, text, "`_` in load context, not a binder", trivial=True)
+                continue
+            # `_` as a BINDER is a synthesised name like any other: where the program uses a variable called _ (gettext's
+            # `_ = gettext.gettext`, a loop that calls _(..)), storing a throw-away value into it captures that variable
             if ik == "unknown":
                 res.ok("R19.1", fn.loc(c), fn.fq, text, "identifier drawn from a collection / parameter: not a synthesised name (origin not followed)", trivial=True)
                 continue
@@ -263,6 +268,15 @@ def _binding_position(fn: Func, c: ast.Call) -> bool:
     for k in c.keywords:
         if k.arg == "ctx" and "Store" in norm(k.value):
             return True
+    # `yield old, ast.Name(id=..)`: the new name stands where the OLD node stood; unless the old nodes are selected in load
+    # context only, it can stand in a store position
+    tup = parent(c)
+    if isinstance(tup, ast.Tuple) and isinstance(parent(tup), ast.Yield) and len(tup.elts) >= 2 and tup.elts[1] is c and isinstance(tup.elts[0], ast.Name):
+        loop = binding_loop(fn, c, tup.elts[0].id)
+        if loop is not None:
+            it = norm(loop.iter)
+            if not ("ctx=ast.Load" in it or "ctx=(ast.Load)" in it or "ast.Load)" in it):
+                return True
     p = parent(c)
     child = c
     while p is not None and not isinstance(p, ast.stmt):
@@ -319,6 +333,8 @@ def _walk_guard(atom_plain: str, ident_plain: str) -> Optional[str]:
     t = atom_plain.replace(" ", "")
     i = ident_plain.replace(" ", "")
     if t.startswith("any(core.walk(") and (f"ast.Name(id={i})" in t or f"ast.Name(id={i}," in t):
+        if i == "'_'":
+            return "complete"     # the throw-away name only matters where it is READ; reads of a parameter _ are Name loads too
         return "complete" if f"ast.arg(arg={i})" in t else "incomplete"
     return None
 
@@ -671,6 +687,8 @@ def _within(n, container) -> bool:
 from ..selftest import Variant  # noqa: E402
 
 VARIANTS: List[Variant] = [
+    Variant("unused-names-renamed-to-underscore-although-read", "FIRE", "fixes",
+            "    if \"_\" in preserve or any(core.walk(root, ast.Name(id=\"_\", ctx=ast.Load))):\n        return\n", "    if \"_\" in preserve:\n        return\n", "R19.1"),
     Variant("duplicate-deleted-although-uses-not-redirected", "FIRE", "fixes",
             "        if replacement.name in _names_never_substituted(root):\n            continue  # The uses of the duplicates cannot be redirected to it, so they must stay\n", "", "R19.6"),
     Variant("rename-blacklist-inlined-again", "SILENT", "fixes",
